@@ -513,7 +513,7 @@ func (x *exec) contractCall(st *State, cs *callSite, fn *ssa.Function, ct *Contr
 	}
 	nq := 0
 	mkEnv := func(cur, old *State) *specEnv {
-		return &specEnv{x: x, pkg: x.specPkg(ct), vars: vars, st: cur, cur: cur, old: old, nq: &nq, what: "contract " + key}
+		return &specEnv{x: x, pkg: x.specPkg(ct), vars: vars, st: cur, cur: cur, old: old, nq: &nq, what: "contract " + key, atCall: x.e.Funcs[key]}
 	}
 	se := mkEnv(st, nil)
 	// implicit: pointer parameters are non-nil
